@@ -169,3 +169,18 @@ void run_case(ByteSource& s, CaseInfo& ci) {
   ci.label(fmt("threads-%d", n)); ci.label(handovers ? "handover" : "no-handover");
 }
 void enumerate(const Emit&, const std::string&) {}
+
+// fixed finding d2482da: storage cached by a thread was never released when the thread ended
+void regressions() {
+  SU_vector::clear_mem_cache();
+  size_t live0 = ledger::live_blocks();
+  for (int rep = 0; rep < 3; rep++) {
+    std::vector<std::thread> th;
+    for (int t = 0; t < 3; t++) th.emplace_back([t] { for (int k = 0; k < 5; k++) { SU_vector a(2 + t), b(2 + t); a[1] = 1; b[2] = 1; SU_vector c = squids::iCommutator(a, b); (void)c; } });
+    for (auto& x : th) x.join();
+  }
+  SU_vector::clear_mem_cache();
+#ifndef LEDGER_INERT
+  CHECK(ledger::live_blocks() == live0, "C18|storage-cached-by-ended-threads-not-released", "regression: %ld block(s) still live after the workers ended", (long)ledger::live_blocks() - (long)live0);
+#endif
+}
